@@ -148,8 +148,10 @@ type AssertAnchor struct {
 }
 
 type GuardDecl struct {
-	Pattern string // "Struct.field" or "Struct.*"
+	Pattern string // "Struct.field" or "Struct.*"; "global.NAME" for a package-level variable
 	Ghost   string
+	Mutex   string // "by mutex NAME": guarded by the package-level mutex NAME (ghost lock state of that mutex)
+	Atomic  bool   // "by atomic": every access must go through sync/atomic (a plain access fails)
 }
 
 func (g *GuardDecl) matches(structName, field string) bool {
@@ -525,7 +527,13 @@ func (cf *ContractFile) parseOne(path string) error {
 				return fail(fmt.Errorf("guarded PATTERNS by GHOST"))
 			}
 			for _, pat := range strings.Fields(l) {
-				cf.Guards = append(cf.Guards, &GuardDecl{Pattern: pat, Ghost: strings.TrimSpace(r)})
+				g := &GuardDecl{Pattern: pat, Ghost: strings.TrimSpace(r)}
+				if m, ok := strings.CutPrefix(g.Ghost, "mutex "); ok {
+					g.Mutex, g.Ghost = strings.TrimSpace(m), ""
+				} else if g.Ghost == "atomic" {
+					g.Atomic, g.Ghost = true, ""
+				}
+				cf.Guards = append(cf.Guards, g)
 			}
 		case "onwrite":
 			// onwrite PATTERN... set GHOST
